@@ -123,6 +123,26 @@ func report(p *Program, results []*Result, prop, tier, verif string, loadMs int6
 				names = append(names, r.Oblig)
 			}
 		}
+		// bounded stand-ins are tracked separately: they can raise a violation, they never count as proved
+		var bnames []string
+		bprev := map[string]bool{}
+		for _, n := range lock[prop+"#bounded"] {
+			bprev[n] = true
+		}
+		for _, r := range results {
+			if r.Status == "proved" && !r.Vacuity && r.Bounded && hasProp(r, prop) && r.Millis < 2500 && r.ExecMs < 8000 {
+				if intersect && !bprev[r.Oblig] {
+					continue
+				}
+				bnames = append(bnames, r.Oblig)
+			}
+		}
+		sort.Strings(bnames)
+		if len(bnames) > 0 {
+			lock[prop+"#bounded"] = bnames
+		} else {
+			delete(lock, prop+"#bounded")
+		}
 		sort.Strings(names)
 		lock[prop] = names
 		b, _ := json.MarshalIndent(lock, "", " ")
@@ -133,6 +153,10 @@ func report(p *Program, results []*Result, prop, tier, verif string, loadMs int6
 	claimedSet := map[string]bool{}
 	for _, n := range claimed {
 		claimedSet[n] = true
+	}
+	boundedSet := map[string]bool{}
+	for _, n := range lock[prop+"#bounded"] {
+		boundedSet[n] = true
 	}
 	isKnown := func(name string) *knownFinding {
 		for i := range known {
@@ -194,9 +218,12 @@ func report(p *Program, results []*Result, prop, tier, verif string, loadMs int6
 			backends[strings.Fields(r.Solver)[0]]++
 		}
 		solverMs += r.Millis
+		if boundedSet[r.Oblig] {
+			continue
+		}
 		if !claimedSet[r.Oblig] {
 			if k := isKnown(r.Oblig); k != nil && r.Status == "refuted" {
-				fmt.Printf("KNOWN-FINDING: property=%s obligation=%s %s\n", prop, r.Oblig, k.Text)
+				fmt.Printf("KNOWN-FINDING: %s\n", k.Text)
 				knownHit = append(knownHit, r.Oblig)
 				continue
 			}
@@ -221,7 +248,7 @@ func report(p *Program, results []*Result, prop, tier, verif string, loadMs int6
 			}
 		case "refuted":
 			if k := isKnown(name); k != nil {
-				fmt.Printf("KNOWN-FINDING: property=%s obligation=%s %s\n", prop, name, k.Text)
+				fmt.Printf("KNOWN-FINDING: %s\n", k.Text)
 				knownHit = append(knownHit, name)
 				continue
 			}
@@ -235,6 +262,38 @@ func report(p *Program, results []*Result, prop, tier, verif string, loadMs int6
 		default:
 			fmt.Printf("UNDECIDED property=%s obligation=%s reason=%s\n", prop, name, r.Reason)
 			undecided = append(undecided, map[string]any{"obligation": name, "reason": r.Reason})
+		}
+	}
+	// bounded stand-ins
+	boundedOK := 0
+	var boundedList []any
+	for _, name := range lock[prop+"#bounded"] {
+		r := byName[name]
+		if r == nil {
+			fmt.Printf("UNDECIDED property=%s obligation=%s reason=bounded check could not be generated\n", prop, name)
+			continue
+		}
+		switch r.Status {
+		case "proved":
+			boundedOK++
+			if len(boundedList) < 6 {
+				boundedList = append(boundedList, map[string]any{"obligation": r.Oblig, "bound": "loops unrolled on literal inputs (length <= 3), symbolic elements and functions", "paths": r.Paths})
+			}
+		case "refuted":
+			if k := isKnown(name); k != nil {
+				fmt.Printf("KNOWN-FINDING: %s\n", k.Text)
+				knownHit = append(knownHit, name)
+				continue
+			}
+			path := writeReplay(r, "bounded lemma: the solver found a model of the negated obligation (model below)")
+			fmt.Printf("VIOLATION property=%s replay=%s obligation=%s no-failing-input-found\n", prop, path, name)
+			violations++
+		case "unknown":
+			path := writeReplay(r, "bounded lemma was discharged on the unchanged tree and no solver decides it now")
+			fmt.Printf("VIOLATION property=%s replay=%s obligation=%s no-failing-input-found\n", prop, path, name)
+			violations++
+		default:
+			fmt.Printf("UNDECIDED property=%s obligation=%s reason=%s\n", prop, name, r.Reason)
 		}
 	}
 	if violations > 0 {
@@ -280,6 +339,10 @@ func report(p *Program, results []*Result, prop, tier, verif string, loadMs int6
 			"attempted_not_claimed":    notClaimed,
 			"undecided":                undecided,
 			"known_findings_hit":       knownHit,
+			"bounded_standins_checked": boundedOK,
+			"bounded_standins_claimed": len(lock[prop+"#bounded"]),
+			"bounded_standins_samples": boundedList,
+			"bounded_note":             "bounded stand-ins (option unroll lemmas over literal inputs) are listed separately; they are not part of obligations/discharged and are never counted as proved",
 			"vacuity_checks":           vacuityChecked,
 			"vacuity_failures":         vacuityBad,
 			"explanation":              "each obligation is one SMT query generated by symbolic execution of the go/ssa form of /repo's working tree; 'discharged' counts obligations of the lock file proved unsat in this run",
